@@ -40,7 +40,7 @@ def jacobi (ω : K) : Smoother K (Vec K) where
   apply dia _ f := jacobiApply dia f
 
 /-- the SPAI-0 diagonal (spai0.hpp:62-78): `M_i = inverse(Σ_j norm(a_ij)²) * Σ_{col = i} a_ij`; `norm` is
-`math::norm` (`std::abs`), a parameter so that the model makes sense over unordered fields too -/
+`math::norm` (`std::abs`, `Amgcl.absK` in the driver), a parameter so that the model makes sense over unordered fields too -/
 def spai0Diag (norm : K → K) (A : CRS K) : Vec K :=
   Array.ofFn (n := A.nrows) (fun i =>
     let nd := (A.row i).foldl (fun (nd : K × K) cv =>
@@ -60,9 +60,6 @@ def spai0 (norm : K → K) : Smoother K (Vec K) where
   applyPre M A f x t := spai0Sweep M A f x t
   applyPost M A f x t := spai0Sweep M A f x t
   apply M _ f := spai0Apply M f
-
-/-- `std::abs` on an ordered carrier (what `math::norm` is for scalar value types) -/
-def absK [LT K] [DecidableLT K] [Neg K] (v : K) : K := if v < 0 then -v else v
 
 end Relax
 end Amgcl
